@@ -129,7 +129,7 @@ def run(ctx):
                 expected='every other (state, error) => Err(err) unchanged', why='SaslSecureNotSupported, ConnectionTimeout, MalformedFrame ... must keep their identity')
         r.check('timeout-cleared-on-success', all('self.connection_timeout = None' in x.effects for x in okr), site, built=[x.effects for x in okr])
 
-    with ctx.rule('R16.3', 'StartOk and Open carry what the options say; capabilities announced', floor=13) as r:
+    with ctx.rule('R16.3', 'StartOk and Open carry what the options say; capabilities announced', floor=13, floor_notls=12) as r:
         fnp = 'connection_options::ConnectionOptions::make_start_ok'
         rows = P.table(ctx, fnp, ['self', 'start'])
         site = ctx.site(fnp)
